@@ -124,7 +124,6 @@ def parseReq (s : String) : Option Req :=
 
 def parseHdr : List String → Option (List Name × Pool × Nat × List Req)
   | [names, p, r, reqs] => do
-    if names = "" then none
     pure (((names.splitOn " ").filter (· != "")).map (·.toUTF8.toList), ← parsePool p, ← r.toNat?, ← (reqs.splitOn ";").mapM parseReq)
   | _ => none
 
@@ -132,10 +131,15 @@ def hdrModel (f : List String) : String :=
   match parseHdr f with
   | none => "bad-case"
   | some (names, p, robin, reqs) =>
+    if !headerConfigOk names then "config-rejected" else
     let (obs, r) := headerRun names p reqs robin
     ",".intercalate (obs.map fun x => Driver.optNat x.2) ++ "\t" ++ toString r
 
 def hdrJudge (f : List String) (out : String) : String :=
+  if out == "config-rejected" then
+    (match parseHdr f with
+     | some (names, _, _, _) => if headerConfigOk names then "bad:rejected:a header policy with a name was refused" else "ok"
+     | none => "bad:unparsable:" ++ out) else
   match parseHdr f, out.splitOn "\t" with
   | some (names, p, _, reqs), [os, _] =>
     match (os.splitOn ",").mapM Driver.parseOptNat with
